@@ -236,6 +236,25 @@ def c12_doubling(which: int, bound: int, unbounded: bool) -> bool:
     return _run("c12_doubling", (which, bound, unbounded), prods, 3, bound, ub)
 
 
+# a body of length 3 (repeated symbols next to a dead / nullable / generating one)
+A_ALTS = [[(1, [3])], [(1, [])], [(1, [3]), (1, [])]]                 # A -> a | eps | both
+B_ALTS = [[], [(2, [4])], [(2, [])], [(2, [2])]]                      # B: no production | b | eps | B -> B
+
+
+def c12_b3(x: Tuple[int, int, int], ai: int, bi: int, bound: int, unbounded: bool) -> bool:
+    """
+    pre: pinned(x0=x[0], ai=ai, bi=bi, unbounded=unbounded)
+    pre: enc.in_range(x, 5) & ((0 <= ai) & (ai < 3)) & ((0 <= bi) & (bi < 4)) & ((0 <= bound) & (bound <= 3))
+    pre: (not unbounded) or bound == 0
+    post: _
+    """
+    # variables S, A, B (codes 0-2), terminals a, b (codes 3, 4): S -> x0 x1 x2 plus the alternatives of A and B
+    body = [enc.pick(x[i], 5) for i in range(3)]
+    prods = [(0, body)] + A_ALTS[enc.pick(ai, 3)] + B_ALTS[enc.pick(bi, 4)]
+    ub = enc.flag(unbounded)
+    return _run("c12_b3", (x, ai, bi, bound, unbounded), prods, 3, bound, ub)
+
+
 def _sh_p2(tier):
     return [{"p": 0, "unbounded": False}, {"p": 1, "unbounded": False}, {"p": 1, "unbounded": True}] + \
         product_pins(p=[2], h0=[0, 1], l0=[0, 1, 2], unbounded=[False, True])
@@ -284,5 +303,11 @@ CONDS = [
     Cond("C12", c12_doubling, _sh_doubling,
          {"quick": "8 hand-picked grammars over {S,A,B},{a,b} whose word lengths are 1,2,4,8 (doubling) x symbolic "
                    "bound 0..9 and unbounded", "thorough": "same"},
+         FUNCS, RULE, assumptions=ASSUME),
+    Cond("C12", c12_b3, lambda tier: product_pins(x0=[1] if tier == "quick" else [0, 1, 2, 3, 4], ai=[0, 1, 2], bi=[0, 1, 2, 3],
+                                                  unbounded=[False, True]),
+         {"quick": "S -> A x1 x2 (x1, x2 symbolic in {S,A,B,a,b}), A -> a | eps | both, B -> nothing | b | eps | B: a body "
+                   "of length 3 with repeated symbols next to a dead, nullable or generating one; symbolic bound 0..3 and "
+                   "unbounded", "thorough": "first symbol symbolic too"},
          FUNCS, RULE, assumptions=ASSUME),
 ]
